@@ -46,6 +46,7 @@ type Contract struct {
 	Native   bool // native string theory
 	Inline   bool
 	Options  map[string]string
+	GhostEns []*Clause // definitional ensures about ghost state: assumed at call sites, not checked in the unit itself
 	GhostSet []*Clause // "name := expr": ghost assignments performed on return (definitional, applied at call sites)
 	File     string
 	Line     int
@@ -85,7 +86,7 @@ type Specs struct {
 var funcHdrRe = regexp.MustCompile(`^func\s+(.+?)\s*\(([^()]*)\)\s*(?:\(([^()]*)\))?\s*$`)
 var labelRe = regexp.MustCompile(`^([A-Za-z_][A-Za-z0-9_]*)\s*:([^:].*)$`)
 
-var clauseKeywords = map[string]bool{"func": true, "property": true, "uses": true, "requires": true, "ensures": true, "modifies": true, "nopanic": true, "checked": true, "trusted": true, "abstract": true, "ghostset": true, "strings": true, "loop": true, "invariant": true, "inline": true, "option": true, "assume": true,
+var clauseKeywords = map[string]bool{"func": true, "property": true, "uses": true, "requires": true, "ensures": true, "modifies": true, "nopanic": true, "checked": true, "trusted": true, "abstract": true, "ghostset": true, "ghostensures": true, "strings": true, "loop": true, "invariant": true, "inline": true, "option": true, "assume": true,
 	"module": true, "package": true, "pure": true, "ghost": true, "define": true, "axiom": true, "lemma": true, "const": true, "import": true}
 
 func splitList(s string) []string {
@@ -217,6 +218,12 @@ func (s *Specs) loadContractFile(path, pkgPath string) error {
 			cur.Props = append(cur.Props, strings.Fields(strings.ReplaceAll(rest, ",", " "))...)
 		case "uses":
 			cur.Uses = append(cur.Uses, strings.Fields(strings.ReplaceAll(rest, ",", " "))...)
+		case "ghostensures":
+			c, err := parseClause(rest, path, l.line)
+			if err != nil {
+				return err
+			}
+			cur.GhostEns = append(cur.GhostEns, c)
 		case "requires", "ensures", "invariant":
 			c, err := parseClause(rest, path, l.line)
 			if err != nil {
